@@ -94,6 +94,8 @@ def check(src, rep):
     bad4 = bad5 = bad2 = 0
     und = None
     shown = set()
+    from sa.decoders import ResultLog
+    rlog = ResultLog()
 
     def V(rule, tag, text, witness=None, fnname=None):
         if (rule, tag) in shown:
@@ -121,6 +123,12 @@ def check(src, rep):
                 res = AE.apply(f_, [arg])  # one interpreter state for all lists: module-level tables mutated by an earlier decode are seen by the later ones
                 n_cases += 1
                 desc = f"{which} list with {mt_desc}"
+                if res[0] == "branch" and isinstance(res[1], Res) and res[1].op in ("Gt", "GtE", "Lt", "LtE") and len(res[1].args) == 2 \
+                        and all(isinstance(a_, Sym) and a_.pytype == "datetime" for a_ in res[1].args):
+                    bad5 += 1
+                    V("R5", "clock-ordering", "the meter clock is chosen by ordering two transmitted date-times: one of them can have a deviation (aware datetime) and the other none (naive), and "
+                      "ordering those raises TypeError; when they are comparable the result is not unconditionally the documented one", f"{desc}: condition {res[1]!r}", fnname=f_.node.name)
+                    continue
                 if res[0] in ("undecided", "branch"):
                     und = f"{desc}: {res[1]!r}"
                     break
@@ -139,6 +147,7 @@ def check(src, rep):
                 if not isinstance(got, dict):
                     und = f"{desc}: normaliser does not return a dictionary"
                     break
+                rlog.add(desc, got)
                 # scaled registers
                 for c, reg in list(cur.items()) + list(ene.items()):
                     g = got.get(key_of(c), None)
@@ -190,6 +199,10 @@ def check(src, rep):
         if und:
             break
     n_paths = n_cases
+    rf = rlog.finding()
+    if rf:
+        bad5 += 1
+        V("R5", "result-aliased", rf[0], rf[1])
     if und:
         rep.undecide(f"R4 the kamstrup normaliser is outside the interpreted subset / branches on an undetermined condition for a {und}")
     else:
